@@ -97,12 +97,11 @@ Theorem C04_bound_g d c a tr s :
 Proof. intros Ha Hp Hr. eapply bound_of_inv; eauto using reach_slots, reach_q. Qed.
 
 (* ------------------------------------------------------------------ Boolean forms *)
-Lemma scan_all c chk : (forall s e s', chk s = true -> step c s e = Some s' -> True) ->
-  forall (I : st -> Prop), (forall s, I s -> chk s = true) ->
+Lemma scan_all c chk (I : st -> Prop) : (forall s, I s -> chk s = true) ->
   (forall s e s', I s -> step c s e = Some s' -> I s') ->
   forall tr s, I s -> grun false c s tr <> None -> scan c chk s tr = true.
 Proof.
-  intros _ I Hc Hs. induction tr as [|e t IH]; intros s Hi Hr; simpl.
+  intros Hc Hs. induction tr as [|e t IH]; intros s Hi Hr; simpl.
   - rewrite (Hc s Hi). reflexivity.
   - rewrite (Hc s Hi). simpl in Hr. unfold step in *. destruct (gstep false c s e) eqn:E; [|congruence].
     apply IH; [eapply Hs; eauto | exact Hr].
@@ -115,7 +114,7 @@ Qed.
 
 Lemma C04_scan_true c tr : run c (init c) tr <> None -> scan c (C04_check c) (init c) tr = true.
 Proof.
-  intros Hr. apply (scan_all c (C04_check c) (fun _ _ _ _ _ => I) (fun s => InvSlots c s /\ InvQ c s)); auto.
+  intros Hr. apply (scan_all c (C04_check c) (fun s => InvSlots c s /\ InvQ c s)); auto.
   - intros s [H1 H2]. unfold C04_check. destruct (cA c) as [[|a]|] eqn:Ha; auto.
     apply Nat.leb_le. eapply bound_of_inv; eauto. lia.
   - intros s e s' [H1 H2] Hs. split; [eapply gstep_slots | eapply gstep_q]; eauto.
